@@ -131,21 +131,35 @@ Proof.
   split; [exact Hin|]. intro P. apply Hn. exact (Permutation_in x P Hin).
 Qed.
 
-(* without a required list the generator cannot even start when a default is present, and otherwise writes
-   no _required: typedpy then requires every field *)
+(* the walk over the properties never raises *)
+Lemma final_required_total props : forall req, exists r, final_required req props = Some r.
+Proof.
+  induction props as [|[n f] props IH]; intro req; [eexists; reflexivity|].
+  cbn [final_required]. destruct (field_default f); destruct req; apply IH.
+Qed.
+
+(* ... hence schema_to_struct_code produces a class statement for every class description *)
+Theorem class_toks_total c : exists toks, class_toks c = Some toks.
+Proof.
+  unfold class_toks. destruct (final_required_total (c_props c) (c_required c)) as [r E]. rewrite E.
+  eexists. reflexivity.
+Qed.
+
+Lemma back_required_covered props : forall l,
+  (forall p, In p props -> str_in (fst p) l = true) -> back_required l props = l.
+Proof.
+  induction props as [|p props IH]; intros l H; [reflexivity|].
+  cbn [back_required]. rewrite (H p (or_introl eq_refl)).
+  destruct (has_default p); apply IH; intros q Hq; apply H; right; exact Hq.
+Qed.
+
+(* without a required list the generator writes no _required, whatever defaults the properties have: typedpy
+   then requires every field that has no default, and structure_to_schema lists every property *)
 Theorem no_required_all_required props :
-  defaulted props = [] ->
   final_required None props = Some None /\ back_required (map fst props) props = map fst props.
 Proof.
-  unfold defaulted. induction props as [|p props IH]; intro H; [split; reflexivity|].
-  cbn [filter] in H. destruct (has_default p) eqn:Hd; [discriminate|].
-  destruct p as [n f]. unfold has_default in Hd. cbn [snd] in Hd.
-  destruct (IH H) as [H1 H2]. split.
-  - cbn [final_required]. destruct (field_default f); [discriminate | exact H1].
-  - clear IH H1 H2. cbn [back_required]. unfold has_default at 1. cbn [snd].
-    destruct (field_default f); [discriminate|].
-    generalize (map fst ((n, f) :: props)). intro l. revert l.
-    induction props as [|q props IHp]; intro l; [reflexivity|].
-    cbn [filter] in H. destruct (has_default q) eqn:Hq; [discriminate|].
-    cbn [back_required]. rewrite Hq. apply IHp. exact H.
+  split.
+  - induction props as [|[n f] props IH]; [reflexivity|].
+    cbn [final_required]. destruct (field_default f); exact IH.
+  - apply back_required_covered. intros p Hp. apply str_in_In'. apply in_map. exact Hp.
 Qed.
